@@ -152,6 +152,10 @@ func (r *armoredReader) Read(p []byte) (int, error) {
 	if len(line) == 0 {
 		return 0, r.setErr(errors.New("empty line in armored body"))
 	}
+	if bytes.ContainsAny(line, "\r\n") {
+		// CR and LF are ignored by base64 decoding, but we don't want any malleability.
+		return 0, r.setErr(errors.New("unexpected newline character"))
+	}
 	r.unread = r.buf[:]
 	n, err := base64.StdEncoding.Strict().Decode(r.unread, line)
 	if err != nil {
